@@ -260,6 +260,27 @@ func (eq *externalBaseQueue) Worker() Worker {
 }
 
 func (eq *externalBaseQueue) Purge() {
+	// The pending items of an in-memory queue are jobs whose handles may have waiters. Taking a
+	// snapshot and purging afterwards would drop a job enqueued in between without closing it:
+	// take them out one at a time instead (at most as many as are pending now), so that a job added
+	// concurrently is either removed and closed here or stays pending.
+	if _, ok := eq.q.(IAcknowledgeable); !ok {
+		for n := eq.q.Len(); n > 0; n-- {
+			val, ok := eq.q.Dequeue()
+
+			if !ok {
+				break
+			}
+
+			if j, ok := val.(io.Closer); ok {
+				j.Close()
+			}
+		}
+
+		return
+	}
+
+	// the entries of a persistent or distributed queue are serialized jobs: there is nothing to close
 	prevValues := eq.q.Values()
 	vhook("purge.values", len(prevValues))
 	eq.q.Purge()
